@@ -247,8 +247,16 @@ impl<'a> Gen<'a> {
     }
     fn byte_expr(&mut self) -> String {
         let e = self.expr(2, false);
-        let f = ["low", "high", "byte2", "LOW", "byte3"][self.r.usize(5)];
-        format!("{}({})", f, e)
+        match self.r.below(12) {
+            0 => format!("low(exp2({}))", self.r.below(8)),
+            1 => format!("log2({})", e),
+            2 => format!("page({})", e),
+            3 => format!("byte4({})", e),
+            _ => {
+                let f = ["low", "high", "byte2", "LOW", "byte3"][self.r.usize(5)];
+                format!("{}({})", f, e)
+            }
+        }
     }
     fn word_expr(&mut self) -> String {
         let e = self.expr(2, false);
@@ -687,7 +695,14 @@ pub fn gen(r: &mut Rng, pool: &Pool, opts: &GenOpts) -> Program {
             21 => g.dseg_block(),
             22 => g.eseg_block(),
             _ => {
-                if g.r.chance(1, 2) {
+                if g.r.chance(1, 5) {
+                    // directives that produce nothing
+                    Node::Lines(vec![match g.r.below(3) {
+                        0 => "#pragma AVRPART ADMIN PART_NAME ATmega48".to_string(),
+                        1 => ".pragma AVRPART MEMORY PROG_FLASH 4096".to_string(),
+                        _ => ".csegsize 10".to_string(),
+                    }])
+                } else if g.r.chance(1, 2) {
                     g.org_block()
                 } else if opts.messages {
                     let k = if g.r.chance(1, 3) { "warning" } else { "message" };
